@@ -776,8 +776,10 @@ class SourceHandler:
                 return
             self._params.positive_ack_params.ack_timer.reset()
             self._params.positive_ack_params.ack_counter += 1
+            # The progress is the file size for a regular EOF PDU and the size of the sent prefix
+            # for an EOF (cancel) PDU.
             self._prepare_eof_pdu(
-                self._checksum_calculation(self._params.fp.file_size),
+                self._checksum_calculation(self._params.fp.progress),
             )
 
     def _handle_wait_for_finish(self, packet_holder: PduHolder) -> None:
